@@ -22,7 +22,7 @@ func init() {
 			"C02-R2 facts-before(every mutation in UponDecided) ∋ ok(ValidateDecided); who-may-call(UponDecided)",
 			"C02-R3 Ens(UponCommit|decided) ⊇ {quorum for (round, root), aggregate of counted msgs}; aggregateCommitMsgs uses SignedMessage.Aggregate",
 			"C02-R4 who-may-call(QBFTStore.Save*) and who-may-call(Controller.SaveInstance)",
-			"C02-R5 production qbft.Config literals: ProposerF = RoundRobinProposer(state, round), SignatureVerification = true",
+			"C02-R5 production qbft.Config literals: ProposerF = RoundRobinProposer(state, round), SignatureVerification = true; writes of Share.Quorum / PartialQuorum = 2f+1 / f+1 over len(own committee)",
 		},
 		Trusted: []string{"herumi BLS FastAggregateVerify", "ssv-spec SignedMessage.Validate / Aggregate semantics (their guard facts are imported by summary, their loops are not re-proved)", "go/types + go/ssa"},
 		Assume:  []string{"config.VerifySignatures() true in production (C01-R6)"},
